@@ -78,7 +78,7 @@ def g_pool(draw):
              yy=(r.normal(0, 1, fa.rV) if c["jfa"] else None), offsets=np.sqrt(p["variances"]) * r.normal(0, 0.3, (C, F)),
              chunks=gen.composition(draw, n, max_parts=3), np_seed=gen.integer(draw, 0, 9999),
              upd=[bool(u) for u in gen.choice(draw, [(1, 1, 1), (1, 0, 0), (0, 1, 1), (1, 0, 1), (1, 0, 0)])])
-    ops = [{"op": gen.choice(draw, OPS), "dask": gen.boolean(draw), "flag": gen.boolean(draw)}
+    ops = [{"op": gen.choice(draw, OPS), "dask": gen.boolean(draw), "flag": gen.boolean(draw), "cold": gen.boolean(draw)}
            for _ in range(gen.integer(draw, 3, 10))]
     c["ops"] = ops
     return c
@@ -295,6 +295,13 @@ def run_op(pool, op):
         import dask.bag as db
 
         def build():
+            if op.get("cold"):
+                # a machine that draws its own starting matrices from its integer random_state
+                from bob.learn.em import JFAMachine
+
+                kw_ = dict(ubm=sut.make_gmm(case["ubm"]), em_iterations=1, random_state=int(case["np_seed"]))
+                rU_ = np.asarray(case["U"]).shape[1]
+                return JFAMachine(r_U=rU_, r_V=np.asarray(case["V"]).shape[1], **kw_) if case["jfa"] else ISVMachine(r_U=rU_, **kw_)
             return sut.make_fa(case, em_iterations=1)
         src = db.from_sequence(pool.stats, npartitions=2) if op["dask"] else pool.stats
         lab = pool.ylab if op["flag"] else pool.ylab.copy()
